@@ -46,6 +46,8 @@ void messenger::transmit(tcp_operation_header &h,std::string &data)
 {
 	bool done=false;
 	int times=0;
+	// the reply is read into h, keep the request to be able to send it once again
+	tcp_operation_header const request = h;
 	do {
 		try {
 			booster::aio::const_buffer packet = booster::aio::buffer(&h,sizeof(h));
@@ -75,6 +77,7 @@ void messenger::transmit(tcp_operation_header &h,std::string &data)
 			if(!er)
 				socket_.connect(ep,er);
 			if(er) throw cppcms_error("reconnect:"+er.message());
+			h = request;
 			times++;
 		}
 	}while(!done);
